@@ -532,6 +532,34 @@ def run_corr_correlate(pe, acc, case):
                     acc.ok(('cco', pa), True, 'corr-correlate-obs')
             except Exception as e:
                 acc.fail('corr-correlate:obs-partner:raised', dict(case, pa=list(pa)), repr(e))
+    # the flag of a correlator (single-valued and matrix-valued, with undefined timeslices) is that of its entries
+    w = mk(pe, wl, samples_for(wl, wfun, 'ccw'))
+    ent = [mk(pe, wl, samples_for(wl, ofun, ('cce', k))) for k in range(4)]
+    mat = np.array([[ent[0], ent[1]], [ent[1], ent[3]]], dtype=object)
+    for form, content in (('single-valued', [ent[0], None, ent[2]]), ('matrix', [mat, None, 2 * mat]), ('matrix-all-defined', [mat, mat + 1])):
+        sub = dict(case, form=form)
+        try:
+            C = pe.Corr(content)
+            flags = [C.reweighted]
+            if form == 'single-valued':
+                R = C.reweight(w)
+            else:       # Corr.reweight is documented for single-valued correlators: the entries are reweighted one by one
+                R = pe.Corr([None if c is None else np.array([[x.reweight(w) for x in row] for row in c], dtype=object) for c in C.content])
+            flags.append(R.reweighted)
+            parts = [x for c in R.content if c is not None for x in np.ravel(c)]
+            bad = None
+            if flags != [False, True]:
+                bad = 'Corr.reweighted before / after Corr.reweight: %s' % flags
+            elif not all(bool(x.reweighted) for x in parts) or any(bool(x.reweighted) for c in C.content if c is not None for x in np.ravel(c)):
+                bad = 'entries after reweighting carry the flags %s' % [bool(x.reweighted) for x in parts]
+            elif not bool((R * 2).reweighted) or not bool((R + R).reweighted):
+                bad = 'flag lost by arithmetic on the reweighted correlator'
+        except Exception as e:
+            bad = 'raised %s: %s' % (type(e).__name__, e)
+        if bad:
+            acc.fail('corr-flag:%s' % form.split('-')[0], sub, '%s correlator: %s' % (form, bad))
+        else:
+            acc.ok(('cflag', form), True, 'flag')
     acc.sample({'kind': 'Corr.correlate', 'T': T, 'patterns': 'all pairs of non-empty defined-slice patterns'})
 
 
